@@ -1635,6 +1635,12 @@ private:
             const XalanDOMString&   theElementNamespaceURI);
 
     void
+    checkPrefixBinding(
+            const XalanDOMString&       theName,
+            XalanDOMString::size_type   theColonIndex,
+            const XalanDOMString&       theNamespaceURI);
+
+    void
     error(
             const XalanDOMString&   theMessage,
             const Locator*          theLocator,
